@@ -1,5 +1,6 @@
 # pylint: disable=bad-staticmethod-argument
 
+import contextlib
 import copy
 import functools
 import inspect
@@ -11,6 +12,7 @@ from lazy_object_proxy import Proxy
 from spec_classes.types import MISSING, UNCHANGED, Attr
 from spec_classes.utils.method_builder import MethodBuilder
 from spec_classes.utils.mutation import (
+    _rollback_on_error,
     mutate_attr,
     mutate_value,
     prepare_attr_value,
@@ -27,6 +29,8 @@ def _protect_if_unchanged(attr_spec: Attr, instance, value, inplace: bool):
     the value still belongs to `instance`; and so it must be copied before it
     is stored on a copy of `instance`.
     """
+    # (The helper may belong to a parent class; the instance's own class decides.)
+    attr_spec = instance.__spec_class__.attrs.get(attr_spec.name, attr_spec)
     if (
         inplace
         or attr_spec.do_not_copy
@@ -36,6 +40,19 @@ def _protect_if_unchanged(attr_spec: Attr, instance, value, inplace: bool):
     ):
         return value
     return protect_via_deepcopy(value)
+
+
+def _uncopied_value_guard(attr_spec: Attr, instance):
+    """
+    Nested values of `do_not_copy` classes are edited in place by
+    `update_<attr>`/`transform_<attr>` (they cannot be copied); if storing the
+    result then fails, the edit must be undone.
+    """
+    value = instance.__dict__.get(attr_spec.name, MISSING)
+    metadata = getattr(value, "__spec_class__", None) if value is not MISSING else None
+    if metadata and metadata.do_not_copy:
+        return _rollback_on_error(value)
+    return contextlib.nullcontext()
 
 
 class WithAttrMethod(AttrMethodDescriptor):
@@ -138,6 +155,13 @@ class UpdateAttrMethod(AttrMethodDescriptor):
     ):
         if not _if or (_new_value is UNCHANGED and not attrs):
             return self
+        with _uncopied_value_guard(attr_spec, self):
+            return UpdateAttrMethod._update_attr(
+                attr_spec, self, _new_value, _inplace, attrs
+            )
+
+    @staticmethod
+    def _update_attr(attr_spec, self, _new_value, _inplace, attrs):
         return WithAttrMethod.with_attr(
             attr_spec,
             self,
@@ -225,6 +249,13 @@ class TransformAttrMethod(AttrMethodDescriptor):
     ):
         if not _if:
             return self
+        with _uncopied_value_guard(attr_spec, self):
+            return TransformAttrMethod._transform_attr(
+                attr_spec, self, _transform, _inplace, attr_transforms
+            )
+
+    @staticmethod
+    def _transform_attr(attr_spec, self, _transform, _inplace, attr_transforms):
         return WithAttrMethod.with_attr(
             attr_spec,
             self,
